@@ -228,10 +228,10 @@ def step (st : St) (line : String) : St × String :=
         let built := match (C11.Matcher.replay 1024 (addCalls P)).build with
           | .ok b => some b
           | .error _ => none
-        -- `BuildUserspace` fails exactly when the domain matcher cannot be built: a domain key group
-        -- registered at a position beyond the match-set limit (or a pattern outside its alphabet)
+        -- the builder refuses a program of more than MaxMatchSetLen (1024) match sets, fallback entry
+        -- included; `BuildUserspace` additionally fails when the domain matcher cannot be built
         ({ st with prog := prog, rules := rules, fb := fb, groups := groups, built := built },
-          if built.isSome then "ok" else "err:build")
+          if prog.length > 1024 then "err:build" else if built.isSome then "ok" else "err:build")
       | _ => (st, "bad-op")
     | _ => (st, "bad-op")
   | "pkt" :: ts =>
